@@ -611,6 +611,11 @@ def get_provider_ids_matching(rg_ctx):
             provs_with_resource = set(
                 rpids for rpids in provs_with_resource
                 if rpids[1] == rg_ctx.tree_root_id)
+        if not filtered_rps:
+            # An empty filtered_rps means that the group has no positive
+            # trait or aggregate filter, not that nothing matches: the
+            # forbidden and in_tree filters have been applied above.
+            return list(provs_with_resource)
 
     # provs_with_resource will contain a superset of providers with IDs still
     # in our filtered_rps set. We return the list of tuples of
